@@ -1117,6 +1117,8 @@ static void VERIF_fnaddr_(void) { __CPROVER_assert(0, "call through a function a
 #ifndef VERIF_CUSTOM_RUNTIME
 static void* VERIF_new(uint64_t n) { void* p = malloc(n); __CPROVER_assume(p != 0); return p; }
 static void VERIF_delete(void* p) { free(p); }
+#else
+void* VERIF_new(uint64_t n); void VERIF_delete(void* p);   /* supplied by the harness */
 #endif
 static void VERIF_throw(void) { __CPROVER_assume(0); }
 void* VERIF_memcpy_witness(void* d, const void* s, uint64_t n);   /* a unit may supply the contract of a variable-length memcpy */
